@@ -225,6 +225,9 @@ class SymSeries:
         if attr == "abs":
             sv = self.col.val
             return self._mk(lambda r: z3.If(to_z3(sv(r)) >= 0, to_z3(sv(r)), -to_z3(sv(r))), self.col.null, self.col.dtype)
+        if attr == "sum":
+            _assume("pandas Series.sum(): the sum of the non-missing values (kept abstract: one symbol per series)")
+            return pyvc.fresh("series_sum", z3.IntSort() if self.col.dtype in ("int", "bool") else z3.RealSort())
         if attr == "unique":
             return SeriesValueSet(self)
         if attr in ("max", "min"):
